@@ -961,7 +961,6 @@ pub fn worker(args: &WorkerArgs, progs: &[Prog], stats: &mut ShardStats) {
         let prog = eligible[(idx % eligible.len() as u64) as usize];
         let seed = derive_seed(args.seed, 200 + prop.trim_start_matches('C').parse::<u64>().unwrap_or(0), idx);
         let mut rng = Rng::new(seed);
-        stats.run_seed(seed);
         let cases: Vec<Json> = match prop {
             "C02" => {
                 let mut knobs = HistKnobs::draw(&mut rng);
@@ -975,6 +974,12 @@ pub fn worker(args: &WorkerArgs, progs: &[Prog], stats: &mut ShardStats) {
                 let mut scheds = vec![gen_schedule(&facts, &mut rng, true)];
                 for _ in 0..rng.range(1, 3) {
                     scheds.push(gen_schedule(&facts, &mut rng, false));
+                }
+                for s in scheds.iter().skip(1) {
+                    stats.fault("reordered_schedule");
+                    stats.fault_n("intermediate_close", s.iter().filter(|x| **x < 0).count() as u64);
+                    let mut seen = std::collections::BTreeSet::new();
+                    stats.fault_n("duplicate_assertion", s.iter().filter(|x| **x >= 0 && !seen.insert(**x)).count() as u64);
                 }
                 vec![c03_case(prog, &facts, &scheds)]
             }
@@ -1011,6 +1016,7 @@ pub fn worker(args: &WorkerArgs, progs: &[Prog], stats: &mut ShardStats) {
                 let old_ops = gen_history(prog, &mut rng, &knobs, false);
                 knobs.len = rng.range(1, 10) as usize;
                 let new_ops: Vec<Op> = gen_history(prog, &mut rng, &knobs, false);
+                stats.fault("new_old_labelling");
                 vec![c16_case(prog, &old_ops, &new_ops)]
             }
             "C17" | "C18" => {
@@ -1027,7 +1033,9 @@ pub fn worker(args: &WorkerArgs, progs: &[Prog], stats: &mut ShardStats) {
                 return;
             }
         };
-        for case in cases {
+        for (ci, case) in cases.into_iter().enumerate() {
+            // every case (for C07: every cancellation point k) is one evaluation
+            stats.run_seed(seed.wrapping_add(ci as u64));
             match crate::run_case(progs, &case) {
                 Ok(Ok(info)) => {
                     stats.steps += info.steps + info.polls;
